@@ -19,8 +19,8 @@ def run(chk):
         if got_ != sc_i[t_]:
             chk.oracle_fail('comments-vs-scan', 'file', t_, got_[:8], sc_i[t_][:8], 'File::comments is not the list of comment tokens of the source (offset, text, order, each once)')
     rng = random.Random(chk.seed)
-    n = 700 if chk.tier == 'quick' else 12000
-    k = 3 if chk.tier == 'quick' else 6
+    n = 700 if chk.tier == 'quick' else 4000
+    k = 3 if chk.tier == 'quick' else 4
     chk.rule = ('%d generated programs + the token lists of all accepted corpus programs, each rendered %d times with line and general comments injected at random token gaps (densities 0.2 .. 1.0 = every gap, up to three comments per gap), '
                 'including gaps inside type-parameter lists, array lengths, interface and struct bodies, at line ends; oracle: File.comments = the comments written, in order, with offset and text.  '
                 'non-trivial: renderings with at least 2 comments; distinct by text.' % (n, k))
